@@ -41,6 +41,7 @@ META_COMMON = {
         "extraction to OCaml for the correspondence run: ExtrOcamlBasic only (bool, option, unit, list, prod, sumbool mapped to OCaml's own types); Z / positive / nat stay Coq's inductive types; coq/extract/muxdriver.ml parses the histories and prints the trace",
         "oracles: fMP4 / MPEG-TS byte encoding (mediacommon, go-astits), SPS / sequence-header parsing, H264 and H265 DTS extraction (mediacommon's DTSExtractor: the harness runs its own instance over the concrete access units and takes the abstract dts of a unit to be what it returns; H264 streams use pic_order_cnt_type 2 (dts = pts) and pic_order_cnt_type 0 with B pictures (dts < pts)), storage (C17), net/http plumbing",
         "Go harness harness/cmd/mux: generator, concretisation of abstract access units into real NALUs / AUs / Opus packets, independent M3U8 reader and MPEG-TS demuxer, property oracles; lib/vlib.py",
+        "search-only legs outside the model (no T leg; they only add histories on which oracles that read playlists, snapshots and response bytes run): storage faults through the VerifWrapStorage hook (C18 retention, C04 playlist history), init-file regeneration failures from a malformed in-band SPS (C04 playlist history), requests overlapping the writer on one P - runtime.GOMAXPROCS(1), the wait:preload-hint yield point, a ResponseWriter that blocks in Write, a 20 s watchdog per wait (C05 same bytes / fragment sequence number)",
     ],
     "assumptions": [
         "all six codecs are concretised by the harness (H264/H265 parameter sets and slices, VP9 frame headers, AV1 OBUs built from the specs and self-checked against mediacommon's parsers at start-up); H264 and H265 DTS extraction is exercised with reordering, the abstract dts is what the real extractor returns (units it rejects are not generated)",
